@@ -96,6 +96,48 @@ filt!(df18, 6, |s, addr, other| DF::ExtendedSquitterTisB { cf: ControlField { fi
 filt!(df20, 8, |s, addr, other| DF::CommBAltitudeReply { fs: FlightStatus::NoAlertNoSpiAirborne, dr: DownlinkRequest::None, um: um0(), ac: AC13Field(s.u16()), bds: DF20DataSelector::default(), ap: IcaoParity(addr) });
 filt!(df21, 9, |s, addr, other| DF::CommBIdentityReply { fs: FlightStatus::NoAlertNoSpiAirborne, dr: DownlinkRequest::None, um: um0(), id: IdentityCode(s.u16() & 0x7777), bds: DF21DataSelector::default(), ap: IcaoParity(addr) });
 
+
+// Second family: the df-label filter swept CONCRETELY over the twelve labels (one-entry list, aircraft
+// filter absent, record fields symbolic).  With concrete strings any comparison the implementation
+// chooses (equality, substring search, prefix test ...) is evaluated during symbolic execution, so a
+// wrong comparison is reported as a violation instead of a timeout: in the family above the label is a
+// symbolic choice, and a substring search over it did not finish in 30 min (seed C11-2).
+macro_rules! labels {
+    ($name:ident, $label:expr, |$s:ident, $addr:ident, $other:ident| $mk:expr) => {
+        harness! {
+            #[kani::unwind(14)]
+            #[kani::stub(alloc::fmt::format, crate::stubs::fmt_stub)]
+            fn $name($s) {
+                let $addr = $s.u32();
+                let $other = $s.u32();
+                vassume!($addr < (1 << 24) && $other < (1 << 24));
+                let df: DF = $mk;
+                let crc = match &df { DF::AllCallReply { .. } | DF::ExtendedSquitterTisB { .. } => $other, DF::ExtendedSquitterADSB(_) => 0, _ => $addr };
+                let t = timed(Some(Message { crc, df }));
+                let mut li = 0usize;
+                while li < 12 {
+                    let f = Filters { df_filter: Some(vec![LABELS[li].to_string()]), aircraft_filter: None };
+                    let got = Filters::is_in(&f, &t);
+                    vcover!(got);
+                    vassert!(got == (li == $label), "with a one-label df filter the record is kept exactly when the label is its displayed df");
+                    core::mem::forget(f);
+                    li += 1;
+                }
+                core::mem::forget(t);
+            }
+        }
+    };
+}
+labels!(labels_df0, 0, |s, addr, other| DF::ShortAirAirSurveillance { vs: 0, cc: 0, unused: 0, sl: 0, unused1: 0, ri: 0, unused2: 0, ac: AC13Field(s.u16()), ap: IcaoParity(addr) });
+labels!(labels_df4, 1, |s, addr, other| DF::SurveillanceAltitudeReply { fs: FlightStatus::NoAlertNoSpiAirborne, dr: DownlinkRequest::None, um: um0(), ac: AC13Field(s.u16()), ap: IcaoParity(addr) });
+labels!(labels_df5, 2, |s, addr, other| DF::SurveillanceIdentityReply { fs: FlightStatus::NoAlertNoSpiAirborne, dr: DownlinkRequest::None, um: um0(), id: IdentityCode(s.u16() & 0x7777), ap: IcaoParity(addr) });
+labels!(labels_df11, 3, |s, addr, other| DF::AllCallReply { capability: Capability::AG_AIRBORNE, icao: ICAO(addr), p_icao: ICAO(other) });
+labels!(labels_df16, 4, |s, addr, other| DF::LongAirAirSurveillance { vs: 0, reserved1: 0, sl: 0, reserved2: 0, ri: 0, reserved3: 0, ac: AC13Field(s.u16()), mv: vec![0; 7], ap: IcaoParity(addr) });
+labels!(labels_df17, 5, |s, addr, other| DF::ExtendedSquitterADSB(ADSB { capability: Capability::AG_AIRBORNE, icao24: ICAO(addr), message: ME::Reserved1 { unused: s.u8() }, parity: ICAO(other) }));
+labels!(labels_df18, 6, |s, addr, other| DF::ExtendedSquitterTisB { cf: ControlField { field_type: ControlFieldType::TISB_FINE, aa: ICAO(addr), me: ME::Reserved1 { unused: s.u8() } }, pi: ICAO(other) });
+labels!(labels_df20, 8, |s, addr, other| DF::CommBAltitudeReply { fs: FlightStatus::NoAlertNoSpiAirborne, dr: DownlinkRequest::None, um: um0(), ac: AC13Field(s.u16()), bds: DF20DataSelector::default(), ap: IcaoParity(addr) });
+labels!(labels_df21, 9, |s, addr, other| DF::CommBIdentityReply { fs: FlightStatus::NoAlertNoSpiAirborne, dr: DownlinkRequest::None, um: um0(), id: IdentityCode(s.u16() & 0x7777), bds: DF21DataSelector::default(), ap: IcaoParity(addr) });
+
 harness! {
     #[kani::unwind(8)]
     #[kani::stub(alloc::fmt::format, crate::stubs::fmt_stub)]
@@ -111,4 +153,5 @@ harness! {
     }
 }
 
-registry!(df0, df4, df5, df11, df16, df17, df18, df20, df21, undecoded_never_kept);
+registry!(df0, df4, df5, df11, df16, df17, df18, df20, df21, undecoded_never_kept,
+          labels_df0, labels_df4, labels_df5, labels_df11, labels_df16, labels_df17, labels_df18, labels_df20, labels_df21);
